@@ -4,81 +4,100 @@
 (*                                                                         *)
 (* The receiving channel keeps the security tokens it accepts (SecureChan- *)
 (* nel.instances[channel id], newest last; verifyAndDecrypt tries every    *)
-(* one, newest first).  A renewal appends a token; a timer per token       *)
-(* (scheduleExpiration) removes it at created + 1.25 x lifetime.  A peer   *)
-(* -- or somebody who learnt old keys -- injects well-formed chunks with a *)
-(* fresh sequence number, protected with the keys of some token.           *)
+(* one, newest first).  A renewal appends a token with the lifetime the    *)
+(* OpenSecureChannel exchange revised for it -- every token its own; one   *)
+(* timer per token (scheduleExpiration) removes it once it has been        *)
+(* replaced and created + 1.25 x lifetime has passed.  A peer -- or some-  *)
+(* body who learnt old keys -- injects well-formed chunks with a fresh     *)
+(* sequence number, protected with the keys of some token.                 *)
 (*                                                                         *)
-(* Time is discrete (ticks).  Expiry is urgent: the clock does not advance *)
-(* past the moment a superseded token is due while it is still stored.     *)
+(* Time is discrete (tick = 250 ms in the replay).  Expiry is urgent: the  *)
+(* clock does not advance past the moment a replaced token is due while it *)
+(* is still stored.  Tokens need not become due in the order they were     *)
+(* issued (long, short, long), and a token may become due while it is      *)
+(* still the active one: it goes when a later renewal replaces it.         *)
+(*                                                                         *)
+(* Renewals happen early (now <= RenewEarly) or late (now >= LateFrom):    *)
+(* in between the client's own renewal timers (0.75 x lifetime) are        *)
+(* pending against a peer that does not answer them.                       *)
 (*                                                                         *)
 (* Deviation Dev_ExpiryWrongKey (the pinned code, repaired by 954271b):    *)
-(* the timer's clean-up looks the tokens up under the wrong map key (token *)
-(* id instead of channel id) and removes nothing.  Kept as deviation demo; *)
-(* FALSE in the as-is configuration.                                       *)
+(* the timer's clean-up looks the tokens up under the wrong map key and    *)
+(* removes nothing.  Dev_PrefixOnly: the clean-up removes only the overdue *)
+(* tokens at the front of the list (assumes expiry in issue order).  Both  *)
+(* are deviation demos; FALSE in the as-is configuration.                  *)
 (***************************************************************************)
 EXTENDS Integers, Sequences, FiniteSets, TLC, Json
 
 CONSTANTS NTok,        \* tokens issued in a behaviour (1 + number of renewals)
-          Lifetime,    \* ticks; grace = Lifetime / 4
+          Lifetimes,   \* lifetimes (ticks, multiples of 4) a token may get
           MaxTime,     \* ticks explored
           Injections,  \* injected chunks per behaviour
-          Dev_ExpiryWrongKey, AsIs_ExpiryWrongKey
+          RenewEarly, LateFrom,
+          Dev_ExpiryWrongKey, Dev_PrefixOnly, AsIs_ExpiryWrongKey
 
-Due(c) == c + Lifetime + Lifetime \div 4
+VARIABLES now, issued, created, life, rc, ra, left, hist
+\* issued: tokens issued so far; created[t], life[t]: issue time and lifetime of token t; rc / ra: token ids
+\* stored by the receiver under verification / the as-is receiver; left: injections left
+vars == <<now, issued, created, life, rc, ra, left, hist>>
+view == <<now, issued, created, life, rc, left>>
 
-VARIABLES now, issued, created, rc, ra, left, hist
-\* issued: number of tokens issued so far; created[t]: issue time; rc / ra: set of token ids stored by
-\* the receiver under verification / the as-is receiver; left: injections left
-vars == <<now, issued, created, rc, ra, left, hist>>
-view == <<now, issued, created, rc, left>>
+Due(t) == created[t] + life[t] + life[t] \div 4
 
 Init == /\ now = 0 /\ issued = 1 /\ created = [t \in 1..NTok |-> 0]
+        /\ life \in [1..NTok -> Lifetimes]          \* the lifetime each token will get
         /\ rc = {1} /\ ra = {1} /\ left = Injections /\ hist = <<>>
 
 Superseded(t) == t < issued
-Overdue(t)    == Superseded(t) /\ now >= Due(created[t])
+Overdue(t)    == Superseded(t) /\ now >= Due(t)
+
+\* what a due timer / a renewal sweeps away
+Sweep(S, wrongKey, prefixOnly) ==
+  IF wrongKey THEN S
+  ELSE IF prefixOnly
+         THEN {t \in S : ~(\A u \in S : u <= t => Overdue(u))}    \* only an overdue front of the list goes
+         ELSE {t \in S : ~Overdue(t)}
+SweepC(S) == Sweep(S, Dev_ExpiryWrongKey, Dev_PrefixOnly)
+SweepA(S) == Sweep(S, AsIs_ExpiryWrongKey, FALSE)
+
+\* timers are punctual: nothing else happens while a stored token is overdue and a sweep would remove it
+Settled == SweepC(rc) = rc /\ SweepA(ra) = ra
 
 \* OpenSecureChannel(Renew): the new token is stored next to the old ones
-Renew == /\ issued < NTok
+Renew == /\ Settled /\ issued < NTok /\ (now <= RenewEarly \/ now >= LateFrom)
          /\ issued' = issued + 1
          /\ created' = [created EXCEPT ![issued + 1] = now]
          /\ rc' = rc \cup {issued + 1} /\ ra' = ra \cup {issued + 1}
-         /\ hist' = Append(hist, [act |-> "renew", t |-> issued + 1, now |-> now])
-         /\ UNCHANGED <<now, left>>
+         /\ hist' = Append(hist, [act |-> "renew", t |-> issued + 1, now |-> now, life |-> life[issued + 1]])
+         /\ UNCHANGED <<now, life, left>>
 
-\* scheduleExpiration's timer for token t fires
-ExpireF(S, t, wrongKey) == IF wrongKey THEN S ELSE S \ {t}
-Expire(t) == /\ t \in 1..issued /\ Overdue(t) /\ (t \in rc \/ t \in ra)
-             /\ \lnot (Dev_ExpiryWrongKey /\ AsIs_ExpiryWrongKey)   \* otherwise nothing ever changes
-             /\ rc' = ExpireF(rc, t, Dev_ExpiryWrongKey)
-             /\ ra' = ExpireF(ra, t, AsIs_ExpiryWrongKey)
-             /\ rc' # rc \/ ra' # ra
-             /\ hist' = Append(hist, [act |-> "expire", t |-> t, now |-> now])
-             /\ UNCHANGED <<now, issued, created, left>>
+\* an expiry timer fires (or the renewal's own clean-up runs)
+Expire == /\ ~Settled
+          /\ rc' = SweepC(rc) /\ ra' = SweepA(ra)
+          /\ hist' = Append(hist, [act |-> "expire", t |-> 0, now |-> now, life |-> 0])
+          /\ UNCHANGED <<now, issued, created, life, left>>
 
-\* timers are punctual: no tick while a stored token of the receiver under verification is overdue
-TimersDone(S, wrongKey) == wrongKey \/ \A t \in S : ~Overdue(t)
-Tick == /\ now < MaxTime
-        /\ TimersDone(rc, Dev_ExpiryWrongKey) /\ TimersDone(ra, AsIs_ExpiryWrongKey)
+Tick == /\ now < MaxTime /\ Settled
         /\ now' = now + 1
-        /\ UNCHANGED <<issued, created, rc, ra, left, hist>>
+        /\ UNCHANGED <<issued, created, life, rc, ra, left, hist>>
 
-\* a well-formed chunk with a fresh sequence number, protected with the keys of token t
+\* a well-formed chunk with a fresh sequence number, protected with the keys of token t; injected while
+\* the token is fresh (one tick after its issue), when it has just become overdue, and some time later
 Verdict(S, t) == IF t \in S THEN "accept" ELSE "reject"
-Inject(t) == /\ left > 0 /\ t \in 1..issued
-             /\ TimersDone(rc, Dev_ExpiryWrongKey) /\ TimersDone(ra, AsIs_ExpiryWrongKey)
+InjectNow(t) == \/ ~Overdue(t) /\ now = created[t] + 1
+                \/ Overdue(t) /\ (now = Due(t) \/ now = created[t + 1] \/ now = Due(t) + 3 \/ now = created[t + 1] + 3)
+Inject(t) == /\ Settled /\ left > 0 /\ t \in 1..issued /\ InjectNow(t)
              /\ left' = left - 1
-             /\ hist' = Append(hist, [act |-> "inject", t |-> t, now |-> now,
+             /\ hist' = Append(hist, [act |-> "inject", t |-> t, now |-> now, life |-> life[t],
                                       overdue |-> Overdue(t), active |-> (t = issued),
                                       expect |-> Verdict(rc, t), asis |-> Verdict(ra, t)])
-             /\ UNCHANGED <<now, issued, created, rc, ra>>
+             /\ UNCHANGED <<now, issued, created, life, rc, ra>>
 
-Next == Renew \/ Tick \/ (\E t \in 1..NTok : Expire(t) \/ Inject(t))
+Next == Renew \/ Tick \/ Expire \/ (\E t \in 1..NTok : Inject(t))
 Spec == Init /\ [][Next]_vars
 
-\* C17: a chunk protected with a superseded token whose lifetime plus grace has elapsed is rejected
-InvExpired == \A t \in 1..issued : (Overdue(t) /\ TimersDone(rc, Dev_ExpiryWrongKey)) => Verdict(rc, t) = "reject"
+\* C17: a chunk protected with a replaced token whose lifetime plus grace has elapsed is rejected
+InvExpired == \A t \in 1..issued : (Overdue(t) /\ Settled) => Verdict(rc, t) = "reject"
 \* sanity (not C17): the newest token is always accepted, a token is never dropped before it is due
 InvActiveUsable == issued \in rc
 InvNotEarly     == \A t \in 1..issued : (~Overdue(t)) => t \in rc
@@ -86,5 +105,6 @@ InvNotEarly     == \A t \in 1..issued : (~Overdue(t)) => t \in rc
 Terminal == left = 0
 \* emit only behaviours that test something: at least one overdue injection
 Interesting == \E i \in 1..Len(hist) : hist[i].act = "inject" /\ hist[i].overdue
-InvEmit == (Terminal /\ Interesting) => PrintT("BEH " \o ToJson([lifetime |-> Lifetime, ntok |-> NTok, steps |-> hist]))
+InvEmit == (Terminal /\ Interesting) =>
+             PrintT("BEH " \o ToJson([ntok |-> NTok, life1 |-> life[1], steps |-> hist]))
 =============================================================================
